@@ -349,6 +349,8 @@ func checkAtomicWrite(r *Report, rule string, fn *ssa.Function, pathParam int, d
 func init() {
 	register("C03", func(r *Report) {
 		ruleCommitOrder(r)
+		ruleCommitAtomicity(r)
+		ruleGCHandoverDurable(r)
 		ruleRolloverSwitch(r)
 		ruleBucketAfterWrite(r)
 		ruleHeaderBeforeRemove(r, "header-before-remove")
@@ -359,4 +361,142 @@ func init() {
 	},
 		"Decides only the ordering discipline that crash safety rests on, not crash behaviour: in every store-level flush sequence the primary is flushed before the index and the freelist after it; Index.Flush publishes bucket positions only after the log write succeeded; GC unlinks a data file only after the header recording FirstFile+1 was written successfully and only the header's first file; legacy files are removed only after the new header exists; header files are replaced by write-temp-then-rename, never rewritten in place; the bucket snapshot is installed by rename after flush+close and removed once opened; an unprocessed freelist hand-over file is never overwritten. Not covered (the bulk of C03): torn appends, the Put-vs-commit interleaving, GC crash windows, recovery behaviour.",
 		"crash-state enumeration is outside this technique family; each rule is 'B never happens unless A already succeeded on this path'")
+}
+
+// R-COMMIT-ATOMICITY: an index record must not reach the index file before the
+// primary bytes it names. commit flushes the primary and then the index; a
+// writer that adds (primary record, index record) between the two flushes gets
+// its index record written while its primary bytes are still pooled. Necessary
+// structural condition: either a lock is held by commit across both flushes
+// and by every writer across its primary Put and index Put/Update, or the
+// index captures its pool (swap) before the primary is flushed.
+func ruleCommitAtomicity(r *Report) {
+	const rule = "commit-atomicity"
+	e := r.E
+	fn := r.need(rule, "S", "(*Store).commit")
+	if fn == nil {
+		return
+	}
+	pf := callSites(fn, primaryFlushCalls...)
+	xf := callSites(fn, indexFlushCalls...)
+	if len(pf) == 0 || len(xf) == 0 {
+		r.Undecided(rule, "commit does not flush primary and index")
+		return
+	}
+	fi := lockFlow(fn, LockSet{})
+	common := intersect(fi.at[pf[0]], fi.at[xf[0]])
+	// shape 2: the index pool is captured before the primary flush
+	captured := false
+	for _, c := range allCalls(fn) {
+		callee := c.Common().StaticCallee()
+		if callee == nil || callee.Blocks == nil || !e.InModule(callee) {
+			continue
+		}
+		if len(fieldStores(callee, "Index.curPool")) == 0 {
+			continue
+		}
+		if before, _ := precededBy(fn, pf[0], map[ssa.Instruction]bool{c: true}, nil); before {
+			captured = true
+		}
+	}
+	writers := [][2]string{{"S", "(*Store).Put"}, {"M", "(*primaryGC).reapRecords"}}
+	for _, w := range writers {
+		wf := r.need(rule, w[0], w[1])
+		if wf == nil {
+			continue
+		}
+		key := "(*store.Store).commit/vs-" + shortFunc(wf)
+		if captured {
+			r.Ok(rule, key, xf[0].Pos(), "the index captures the records to write before the primary is flushed: everything it writes names flushed primary bytes")
+			continue
+		}
+		wfi := lockFlow(wf, LockSet{})
+		var wp, wi []ssa.CallInstruction
+		wp = callSites(wf, "(primary.PrimaryStorage).Put", "(*mhprimary.MultihashPrimary).Put")
+		wi = callSites(wf, "(*index.Index).Put", "(*index.Index).Update", "field:primaryGC.updateIndex")
+		ok := false
+		if len(wp) > 0 && len(wi) > 0 {
+			for l := range common {
+				all := true
+				for _, c := range append(append([]ssa.CallInstruction{}, wp...), wi...) {
+					if _, held := wfi.at[c][l]; !held {
+						all = false
+					}
+				}
+				if all {
+					ok = true
+				}
+			}
+		}
+		if ok {
+			r.Ok(rule, key, xf[0].Pos(), "a common lock excludes this writer from the window between the primary flush and the index flush")
+		} else {
+			r.Bad(rule, key, xf[0].Pos(), "nothing excludes "+shortFunc(wf)+" from the window between commit's primary flush and its index flush (no lock held across both flushes that the writer holds across its primary Put and index Put/Update, and the index does not capture its pool before the primary flush): an index record can be written before the primary bytes it names; after a crash a key that was present at the last completed flush reads as an error, is dropped and reports absent")
+		}
+	}
+	r.Min(rule, 2)
+}
+
+// R-GC-HANDOVER-DURABLE: primary GC marks a superseded record deleted as soon
+// as its freelist entry is handed over; the index update that superseded it
+// must be on disk by then, otherwise a crash leaves the on-disk index naming a
+// deleted record. Necessary structural condition: on every path to the
+// hand-over (processFreeList) an index flush happened in this cycle.
+func ruleGCHandoverDurable(r *Report) {
+	const rule = "gc-handover-durable"
+	fn := r.need(rule, "M", "(*primaryGC).gc")
+	if fn == nil {
+		return
+	}
+	sites := callSites(fn, "mhprimary.processFreeList")
+	if len(sites) == 0 {
+		r.Undecided(rule, "primaryGC.gc does not call processFreeList")
+		return
+	}
+	// calls in gc that (transitively, through the call graph) reach Index.Flush
+	memo := map[*ssa.Function]int{}
+	var reaches func(f *ssa.Function) bool
+	reaches = func(f *ssa.Function) bool {
+		switch memo[f] {
+		case 1:
+			return false
+		case 2:
+			return true
+		}
+		memo[f] = 1
+		for _, c := range allCalls(f) {
+			if cname(c) == "(*index.Index).Flush" {
+				memo[f] = 2
+				return true
+			}
+			for _, callee := range r.E.Callees(c) {
+				if callee.Blocks != nil && r.E.InModule(callee) && reaches(callee) {
+					memo[f] = 2
+					return true
+				}
+			}
+		}
+		return false
+	}
+	flushers := map[ssa.Instruction]bool{}
+	for _, c := range allCalls(fn) {
+		if cname(c) == "(*index.Index).Flush" {
+			flushers[c] = true
+			continue
+		}
+		for _, callee := range r.E.Callees(c) {
+			if callee.Blocks != nil && r.E.InModule(callee) && reaches(callee) {
+				flushers[c] = true
+			}
+		}
+	}
+	for _, s := range sites {
+		ok, _ := precededBy(fn, s, flushers, nil)
+		if ok && len(flushers) > 0 {
+			r.Ok(rule, "(*primaryGC).gc/index-flushed-before-handover", s.Pos(), "the index is flushed in this cycle before freelist entries are applied: every applied entry's superseding index record is on disk")
+		} else {
+			r.Bad(rule, "(*primaryGC).gc/index-flushed-before-handover", s.Pos(), "the GC cycle applies freelist entries (ToGC flushes the freelist pool itself) without the index having been flushed: the superseded record is marked deleted while the on-disk index still names it; a crash before the next store flush makes a key that was present at the last completed flush read as absent")
+		}
+	}
+	r.Min(rule, 1)
 }
